@@ -7,7 +7,7 @@ N_THOROUGH = 12000
 SHARD = 40
 SHRINK_KEYS = ["terms", "cons"]
 RULE = ("linear constraints with integer coefficients/constants/bounds in +-12 over <= 5 variables: BQM equality on float64/float32/object "
-        "models and through .spin/.binary views (repeated labels on the native back-ends), BQM inequality on BINARY models (all four "
+        "models and through .spin/.binary views (repeated labels on every back-end), BQM inequality on BINARY models (all four "
         "outcomes: skipped, refused, equality, slack), DQM equality/inequality (log2, linear, log10 with exactly covering digit ranges), "
         "binary_encoding(ub) for ub in 2..300, CQMs with binary/spin/zero-lower-bound integer variables and <= 3 linear integer "
         "constraints of all senses through cqm_to_bqm and its inverter; non-trivial = at least one term / slack variable / constraint; "
@@ -21,6 +21,5 @@ ASSUMPTIONS = ["the coefficients a model reports (linear, quadratic, offset) def
                "IEEE-754 arithmetic is exact on the small dyadic coefficients generated",
                "inequality constraints are generated for BINARY BQMs only (on SPIN BQMs the bound computation is a known defect, kept as corpus case)",
                "cross_zero=False and penalization_method='slack' only"]
-PARTIAL = ["C16_equality_penalty_exact_fallback_partial: python fallback exact only for pairwise distinct labels (refuted otherwise)",
-           "C16_dqm_log10_covers_partial: log10 covers 0..U for U <= 300 (by computation); the gap itself is refuted",
+PARTIAL = ["C16_dqm_log10_covers_partial: log10 covers 0..U for U <= 300 (by computation); the gap itself is refuted",
            "C16_cqm_to_bqm_gap_partial: stated on the integer penalties of the substituted constraints; the assembled BQM is tied by the check"]
